@@ -813,10 +813,28 @@ static int vt_tables_state(const sim_scanner_vt *vt)
 		if (insts[i].vt == vt) {
 			if (insts[i].tables_loaded == 1)
 				return 1;
-			if (insts[i].tables_loaded == 2)
+			if (insts[i].tables_loaded == 2 && !instxs[i].finished)
 				st = 2;
 		}
 	return st;
+}
+/* hand the baton to the instance that is loading the tables of vt (a waiting instance
+ * must not depend on the plan's hand-over pattern ever reaching the loader) */
+static void yield_to_loader(const sim_scanner_vt *vt)
+{
+	sim_inst *I = sim_cur;
+	int i;
+	if (free_run || !I)
+		return;
+	for (i = 0; i < ninst; i++)
+		if (insts[i].vt == vt && insts[i].tables_loaded == 2 && !instxs[i].finished && i != I->id) {
+			ev("S to=%d", i);
+			baton = i;
+			pthread_cond_broadcast(&cv);
+			while (baton != I->id)
+				pthread_cond_wait(&cv, &big);
+			return;
+		}
 }
 
 static int resolve(sim_inst *I, const plan_op *po, sim_xop *x, int in_action)
@@ -1019,7 +1037,7 @@ static int resolve(sim_inst *I, const plan_op *po, sim_xop *x, int in_action)
 		/* a --tables-file scanner must load its tables first; while another
 		 * instance of the same scanner is loading them this one waits */
 		while (vt->has_tables && I->tables_loaded != 1 && vt_tables_state(vt) == 2)
-			sim_yield();
+			yield_to_loader(vt);
 		if (vt->has_tables && I->tables_loaded != 1 && vt_tables_state(vt) != 1)
 			return 0;
 		if (I->depth == 0 && !I->yyin_set) {
